@@ -1,6 +1,6 @@
 (** C04 - every report points at the real culprit: location and payload match the input. *)
 From Deserr Require Import Base Pointer Kinds Value Prog Utf8 Scalars Types Deser Monitors C04Defs.
-From Deserr.proofs Require Import LeavesProofs C04Proofs.
+From Deserr.proofs Require Import LeavesProofs C04Proofs Under LocProofs DeserLoc.
 
 (** For every target type satisfying the stated hypotheses ([c04_wf]: distinct effective keys
     within each struct / variant, no variant field keyed like the enum's tag), every payload with
@@ -22,6 +22,28 @@ Theorem c04_trace_true : forall t v script,
   Forall (call_ok v) (snd (run script (deserialize t v) [])).
 Proof. exact deserialize_calls_true. Qed.
 
+(** Hand-overs: under every script, every [merge(_, other, loc)] made by [deserialize] is made at
+    a location that is an ancestor-or-self of the location of every report held by [other]. *)
+Theorem c04_merge_location : forall t v script,
+  let tr := snd (run script (deserialize t v) []) in
+  Forall (merge_ok tr) tr.
+Proof. exact deserialize_merges_located. Qed.
+
+(** Both together: the monitor that the check evaluates on the implementation's traces
+    ([Monitors.call_true]) holds of every call of every run of the model. *)
+Theorem c04_call_true : forall t v script,
+  nodup_keys v = true -> c04_wf t = true ->
+  let tr := snd (run script (deserialize t v) []) in
+  forallb (call_true v tr) tr = true.
+Proof. exact deserialize_call_true. Qed.
+
+Check c04_merge_location : forall t v script,
+  let tr := snd (run script (deserialize t v) []) in Forall (merge_ok tr) tr.
+Check c04_call_true : forall t v script,
+  nodup_keys v = true -> c04_wf t = true ->
+  let tr := snd (run script (deserialize t v) []) in
+  forallb (call_true v tr) tr = true.
+
 (* non-vacuity: an array fault at index 2 and a missing field inside a map value *)
 Example c04_example :
   let u8 := TInt {| i_signed := false; i_width := W8; i_nonzero := false |} in
@@ -40,3 +62,5 @@ Check c04_trace_true : forall t v script,
   nodup_keys v = true -> c04_wf t = true -> Forall (call_ok v) (snd (run script (deserialize t v) [])).
 Print Assumptions c04_calls_true.
 Print Assumptions c04_trace_true.
+Print Assumptions c04_merge_location.
+Print Assumptions c04_call_true.
